@@ -393,6 +393,93 @@ func srvReal(multi, con bool, v int64, code codes.Code) (line string) {
 	return b.String()
 }
 
+// srvHistory (`srvt` lines): a history on ONE long-lived datagram connection.  Steps, separated by `;`:
+// `r<mid>:<con|non>:<v|->:<code>` a request with that message ID (the i-th request of the line carries the one-byte token
+// 0xc0+i; its handler calls SetResponse(code)), `w<ms>` that much (virtual) time passes, `s` the periodic sweep runs
+// (Conn.CheckExpirations(now), what the connection's PeriodicRunner does every few seconds).  Reported per request, like `srv`.
+// A message ID that comes again after EXCHANGE_LIFETIME belongs to a NEW request (RFC 7252 section 4.4: a wrapped 16-bit counter,
+// a restarted peer), whatever the reply cache still holds.
+func srvHistory(t *testing.T, spec string) (line string) {
+	synctest.Test(t, func(t *testing.T) {
+		set := "nocall"
+		var code codes.Code
+		cc, s := mem.NewUDPConn(mem.UDPOpts{Mutate: func(cfg *udpclient.Config) {
+			cfg.Handler = func(w *responsewriter.ResponseWriter[*udpclient.Conn], r *pool.Message) {
+				set = setCalls(code, func(c codes.Code) error { return w.SetResponse(c, message.TextPlain, nil) })
+			}
+		}})
+		savedMID, savedTok := reqMID, reqToken
+		defer func() { reqMID, reqToken = savedMID, savedTok }()
+		var outs []string
+		n := 0
+		for _, st := range strings.Split(spec, ";") {
+			switch {
+			case st == "s":
+				cc.CheckExpirations(time.Now())
+				synctest.Wait()
+			case strings.HasPrefix(st, "w"):
+				ms, _ := strconv.ParseInt(st[1:], 10, 64)
+				time.Sleep(time.Duration(ms) * time.Millisecond)
+				synctest.Wait()
+			case strings.HasPrefix(st, "r"):
+				f := strings.Split(st[1:], ":")
+				if len(f) != 4 {
+					outs = append(outs, "bad-step")
+					continue
+				}
+				mid, _ := strconv.ParseInt(f[0], 10, 32)
+				v := int64(-1)
+				if f[2] != "-" {
+					v, _ = strconv.ParseInt(f[2], 10, 64)
+				}
+				c, _ := strconv.ParseUint(f[3], 10, 16)
+				code = codes.Code(c)
+				reqMID, reqToken = int32(mid), message.Token{byte(0xc0 + n)}
+				n++
+				s.TakeSent() // whatever went out while time passed (nothing is expected to) belongs to no request
+				set = "nocall"
+				if err := cc.Process(nil, buildReq(true, f[1] == "con", v)); err != nil {
+					set = "process-error"
+				}
+				synctest.Wait()
+				sent := s.TakeSent()
+				var b bytes.Buffer
+				fmt.Fprintf(&b, "set %s sent %d", set, len(sent))
+				for _, d := range sent {
+					m := pool.NewMessage(context.Background())
+					if _, err := m.UnmarshalWithDecoder(udpcoder.DefaultCoder, d.Data); err != nil {
+						b.WriteString(" undecodable")
+						continue
+					}
+					midName := "own"
+					if m.MessageID() == reqMID {
+						midName = "req"
+					}
+					fmt.Fprintf(&b, " %s %d %s %s", typeName(m.Type()), m.Code(), midName, lp.Hex(m.Token()))
+					if m.Type() == message.Confirmable {
+						// the peer acknowledges a separate (confirmable) response, so that nothing is retransmitted later
+						ack := pool.NewMessage(context.Background())
+						ack.SetType(message.Acknowledgement)
+						ack.SetCode(codes.Empty)
+						ack.SetMessageID(m.MessageID())
+						if ab, err := ack.MarshalWithEncoder(udpcoder.DefaultCoder); err == nil {
+							_ = cc.Process(nil, append([]byte(nil), ab...))
+							synctest.Wait()
+						}
+					}
+				}
+				outs = append(outs, b.String())
+			default:
+				outs = append(outs, "bad-step")
+			}
+		}
+		line = strings.Join(outs, " ; ")
+		_ = cc.Close()
+		synctest.Wait()
+	})
+	return line
+}
+
 func isLine(code uint64, v uint64) bool {
 	return noresponse.IsNoResponseCode(codes.Code(code), uint32(v)) != nil
 }
@@ -460,6 +547,9 @@ func TestC20(t *testing.T) {
 			} else {
 				fmt.Fprintf(w, "accepted %v %d\n", resp.IsModified(), resp.Code())
 			}
+		case len(f) == 2 && f[0] == "srvt":
+			handlerMutates, badLength, callCodes = nil, nil, nil
+			fmt.Fprintln(w, srvHistory(t, f[1]))
 		case len(f) == 5 && f[0] == "srvreal":
 			badLength = nil
 			v := int64(-1)
